@@ -379,6 +379,31 @@ def check_C15(tier, seed):
             out.violation("run-exit:valid-grammar-failed", "run_exit_on_error exited %s on a valid grammar" % p.returncode, {"grammar_text": t})
         if want == 1 and p.returncode != 1:
             out.violation("run-exit:wrong-status", "run_exit_on_error exited with status %s (want 1) for a rejected grammar (%s)" % (p.returncode, lab), {"grammar_text": t, "rc": p.returncode})
+    # directory mode: one rejected grammar among valid ones, at every place of the listing (and in a sub-directory, and next
+    # to files that are not grammars): the run must report the failure whatever comes after the bad file
+    good = "@export A = 'a' {b:B} $; B = 'b';"
+    names = ["a.ebnf", "b.ebnf", "c.ebnf", "sub/d.ebnf", "m.ebnf"]
+    for bi, (blab, bad) in enumerate([("syntax error", "@export A = = 'a';"), ("restriction", "@export S = a:A; A = @:B x:B; B = 'b';"), ("field in lookahead", "@export A = !(x:B) 'a'; B = 'b';")]):
+        for pos in range(len(names)):
+            dd = os.path.join(td, "dir_%d_%d" % (bi, pos))
+            os.makedirs(os.path.join(dd, "sub"))
+            for k2, nm in enumerate(names):
+                with open(os.path.join(dd, nm), "w", encoding="utf-8") as f:
+                    f.write(bad if k2 == pos else good)
+            with open(os.path.join(dd, "README.txt"), "w") as f:
+                f.write("not a grammar\n")
+            with open(os.path.join(dd, "z_notes.md"), "w") as f:
+                f.write("# notes\n")
+            for mode_, want_rc in (("dir", None), ("dir_exit", 1)):
+                p = subprocess.run([bs, mode_, dd, "-", "-", "-", "0", "-"], stdout=subprocess.PIPE, stderr=subprocess.PIPE, env=build.BASE_ENV, timeout=120)
+                ntool += 1
+                so = p.stdout.decode("utf-8", "replace").strip()
+                if mode_ == "dir" and not so.startswith("ERR"):
+                    out.violation("compile-dir:error-lost", "Compile::directory(..).run() returned Ok although %s was rejected (%s; other entries valid)" % (names[pos], blab),
+                                  {"bad_file": names[pos], "kind": blab, "stdout": so[:200]})
+                if mode_ == "dir_exit" and p.returncode != 1:
+                    out.violation("compile-dir:exit-status", "run_exit_on_error in directory mode exited with status %s although %s was rejected (%s)" % (p.returncode, names[pos], blab),
+                                  {"bad_file": names[pos], "kind": blab, "rc": p.returncode})
     # missing / unreadable grammar file
     p = subprocess.run([cli, os.path.join(td, "does_not_exist.ebnf")], stdout=subprocess.PIPE, stderr=subprocess.PIPE, env=build.BASE_ENV, timeout=120)
     ntool += 1
